@@ -277,7 +277,8 @@ MISC = {"unique": (lambda a: a.unique(), "{}.unique()"), "invert": (lambda a: ~a
         "bit_length": (lambda a: a.bit_length(), "{}.bit_length()"), "real": (lambda a: a.real, "{}.real"),
         "is_integer": (lambda a: a.is_integer(), "{}.is_integer()"), "strip": (lambda a: a.strip(), "{}.strip()"),
         "date": (lambda a: a.date(), "{}.date()"), "conjugate": (lambda a: a.conjugate(), "{}.conjugate()"),
-        "head": (lambda a: a.head(2), "{}.head(2)") , "tail": (lambda a: a.tail(2), "{}.tail(2)")}
+        "head": (lambda a: a.head(2), "{}.head(2)") , "tail": (lambda a: a.tail(2), "{}.tail(2)"),
+        "bit_lshift": (lambda a: a.bit_lshift(1), "{}.bit_lshift(1)"), "bit_rshift": (lambda a: a.bit_rshift(1), "{}.bit_rshift(1)")}
 
 
 def kid_sorts(node):
